@@ -375,6 +375,10 @@ func describeD(v ssa.Value, depth int) string {
 		return "next"
 	case *ssa.MakeChan:
 		return "makechan(" + describeD(x.Size, depth+1) + ")"
+	case *ssa.MakeMap:
+		return "makemap"
+	case *ssa.MakeSlice:
+		return "makeslice"
 	}
 	return "?" + v.Name()
 }
@@ -571,4 +575,50 @@ func fieldChain(v ssa.Value) ([]string, ssa.Value) {
 		break
 	}
 	return chain, v
+}
+
+// leafSources returns the descriptions of the non-phi values that can flow
+// into v through phis (and single-definition cells), sorted and de-duplicated.
+func leafSources(v ssa.Value) []string {
+	seen := map[ssa.Value]bool{}
+	set := map[string]bool{}
+	var walk func(v ssa.Value)
+	walk = func(v ssa.Value) {
+		v = stripConvKeepIface(v)
+		if seen[v] {
+			return
+		}
+		seen[v] = true
+		if d := singleDef(v); d != nil {
+			walk(d)
+			return
+		}
+		if phi, ok := v.(*ssa.Phi); ok {
+			for _, e := range phi.Edges {
+				walk(e)
+			}
+			return
+		}
+		set[describe(v)] = true
+	}
+	walk(v)
+	var out []string
+	for k := range set {
+		out = append(out, k)
+	}
+	sort.Strings(out)
+	return out
+}
+
+func stripConvKeepIface(v ssa.Value) ssa.Value {
+	for {
+		switch x := v.(type) {
+		case *ssa.ChangeType:
+			v = x.X
+		case *ssa.Convert:
+			v = x.X
+		default:
+			return v
+		}
+	}
 }
